@@ -273,6 +273,69 @@ type c17svc struct {
 	nS             int
 	pk             poker
 	onPark         func(name string) // optional hook, called on the service's goroutine when a function parks
+	hookFlags      []string          // what the goroutine started from inside the parent context's Done() saw (action SH)
+}
+
+// c17hookCtx is a parent context whose first Done() call (context.WithCancel(parent) makes it) runs a hook on
+// the calling goroutine: the point of StartAsync at which the service context is being derived.
+type c17hookCtx struct {
+	context.Context
+	once sync.Once
+	f    func()
+}
+
+func (h *c17hookCtx) Done() <-chan struct{} {
+	h.once.Do(h.f)
+	return h.Context.Done()
+}
+
+// startWithHook: StartAsync(parent) where, while StartAsync derives the service context, a second goroutine
+// calls State, ServiceContext and StopAsync. StartAsync waits for it for a moment only (if that point lies
+// inside the service's critical section the second goroutine cannot proceed until StartAsync has finished);
+// the second goroutine is joined before the action ends. Its observations go to hookFlags.
+func (c *c17svc) startWithHook() error {
+	var mu sync.Mutex
+	done := make(chan struct{})
+	flag := func(f string) {
+		mu.Lock()
+		c.hookFlags = append(c.hookFlags, f)
+		mu.Unlock()
+	}
+	second := func() {
+		defer close(done)
+		defer func() {
+			if r := recover(); r != nil {
+				flag("hkpanic")
+			}
+		}()
+		st := c.svc.State()
+		if ctx := c.svc.ServiceContext(); st != services.New && ctx == nil {
+			flag("hknilctx")
+		}
+		c.svc.StopAsync()
+	}
+	var spawned int32
+	h := &c17hookCtx{Context: c.parent, f: func() {
+		atomic.StoreInt32(&spawned, 1)
+		go second()
+		select {
+		case <-done:
+		case <-time.After(time.Millisecond):
+		}
+	}}
+	err := c.svc.StartAsync(h)
+	if atomic.LoadInt32(&spawned) == 0 {
+		go second() // Done() was not consulted: the stop request simply follows the start
+	}
+	select {
+	case <-done:
+	case <-time.After(8 * time.Second):
+		flag("hkstuck")
+	}
+	mu.Lock()
+	defer mu.Unlock()
+	c.hookFlags = append([]string(nil), c.hookFlags...)
+	return err
 }
 
 func (c *c17svc) ctxFlag() string {
@@ -490,6 +553,13 @@ func (c *c17svc) snapshot() string {
 	if n := atomic.LoadInt32(&c.reent); n > 0 || c.timeouts > 0 {
 		bad = fmt.Sprintf("re%d,to%d", n, c.timeouts)
 	}
+	if len(c.hookFlags) > 0 {
+		if bad == "-" {
+			bad = strings.Join(c.hookFlags, ",")
+		} else {
+			bad += "," + strings.Join(c.hookFlags, ",")
+		}
+	}
 	return strings.Join([]string{c.lastRet, c17StateCode(st), c17ErrID(c.svc.FailureCase()), c.ctxFlag(), calls,
 		c.wR.render(), c.wT.render(), c.cR.render(), c.cT.render(), aR, aT, c.hS.render(), c.hX.render(),
 		strings.Join(ls, "/"), bad}, ";")
@@ -501,6 +571,9 @@ func (c *c17svc) applicable(a string) bool {
 	case 'S':
 		if a == "SA" {
 			return c.hS == nil && !c.parentCancelled
+		}
+		if a == "SH" {
+			return c.nS == 0 && c.hS == nil && !c.parentCancelled && c.svc.State() == services.New
 		}
 		return c.nS < 2
 	case 'X':
@@ -542,7 +615,11 @@ func (c *c17svc) do(a string) {
 			break
 		}
 		c.nS++
-		if err := c.svc.StartAsync(c.parent); err != nil {
+		start := func() error { return c.svc.StartAsync(c.parent) }
+		if a == "SH" {
+			start = c.startWithHook
+		}
+		if err := start(); err != nil {
 			c.lastRet = "e"
 		} else {
 			c.lastRet = "ok"
@@ -822,9 +899,11 @@ func c17RandomCfg(r *rng) string {
 	return c17Cfg(kind, hs, hr, hp)
 }
 
-var c17Weighted = []string{"S", "S", "S", "X", "P", "s0", "s0", "s0", "s1", "r0", "r0", "r2", "p0", "p0", "p3", "i0", "i0", "i4",
+var c17AlphabetHook = []string{"SH", "S", "X", "P", "s0", "s1", "r0", "p0", "p3", "i0", "L", "G", "D1", "W"}
+
+var c17Weighted = []string{"S", "S", "S", "SH", "X", "P", "s0", "s0", "s0", "s1", "r0", "r0", "r2", "p0", "p0", "p3", "i0", "i0", "i4",
 	"L", "G", "R1", "R2", "D1", "D2", "D1", "D2", "W"}
-var c17WeightedHelpers = []string{"SA", "SA", "SA", "XA", "X", "S", "s0", "s0", "s0", "s1", "r0", "r0", "r2", "p0", "p0", "p3", "i0", "i4",
+var c17WeightedHelpers = []string{"SA", "SA", "SA", "SH", "XA", "X", "S", "s0", "s0", "s0", "s1", "r0", "r0", "r2", "p0", "p0", "p3", "i0", "i4",
 	"L", "G", "D1", "D2", "R1"}
 
 func runC17(e *env) {
@@ -853,6 +932,11 @@ func runC17(e *env) {
 			}
 			c17Enumerate(e, cfg, c17Alphabet, d2, cp, r)
 		}
+		// (b') a stop request issued by a second goroutine while StartAsync is deriving the service context (SH),
+		//      every configuration, every short continuation
+		for _, cfg := range []string{"b111", "b011", "b101", "b110", "b000", "i111", "i010", "t111", "t010"} {
+			c17Enumerate(e, cfg, c17AlphabetHook, 3, 150, r)
+		}
 		// (c) random longer sequences, all kinds, with and without the blocking helpers
 		n := 3000 * e.scale
 		type res struct {
@@ -872,6 +956,9 @@ func runC17(e *env) {
 		for _, x := range rs {
 			e.emit(c17EmitSvc(x.cfg, x.done, x.snaps)...)
 		}
+	}
+	if only == "" || only == "race" {
+		runC17Race(e)
 	}
 	if only == "" || only == "mgr" {
 		runC17Mgr(e)
